@@ -6,6 +6,8 @@ import (
 	"strconv"
 	"strings"
 
+	"verifharness/kit"
+
 	"pgregory.net/rapid"
 )
 
@@ -32,6 +34,7 @@ type nodeVar struct {
 }
 
 type sg struct {
+	r     *kit.Rec
 	t     *rapid.T
 	o     *out
 	edge  string
@@ -446,6 +449,30 @@ func (s *sg) constBool(d int) *Expr {
 
 // ---- declarations
 
+// constRHS writes the right-hand side of a `var x = <constant expression>` declaration.
+// K7: a comment before a - AND OR operator on the left spine of the expression is printed by
+// the formatter directly after '=', where the lexer reads "//" as an empty regex: such
+// comment positions are not generated (counted when comments are enabled and the class applies).
+func (s *sg) constRHS(e *Expr) {
+	applies := false
+	for x := e; x != nil && x.K == "bin" && x.P == 0; x = x.A[0] {
+		if x.Op == "-" || x.Op == "AND" || x.Op == "OR" {
+			if s.o.ncbOps == nil {
+				s.o.ncbOps = map[*Expr]bool{}
+			}
+			s.o.ncbOps[x] = true
+			applies = true
+		}
+		if needParens(x, x.A[0], false) {
+			break
+		}
+	}
+	if applies && s.o.comments && s.r != nil {
+		s.r.Exclude("K7 comment before a - AND OR operator on the left spine of a var declaration's constant expression (formatter moves it directly after '=')")
+	}
+	s.o.expr(e)
+}
+
 func (s *sg) declare(typ string, rhs func()) string {
 	name := s.newName()
 	s.kw("var")
@@ -507,23 +534,23 @@ func (s *sg) declStatement() {
 	case 8:
 		e := s.constInt(3)
 		s.noteConst(e)
-		s.declare("int", func() { s.o.expr(e) })
+		s.declare("int", func() { s.constRHS(e) })
 	case 9:
 		e := s.constFloat(3)
 		s.noteConst(e)
-		s.declare("float", func() { s.o.expr(e) })
+		s.declare("float", func() { s.constRHS(e) })
 	case 10:
 		e := s.constDur(3)
 		s.noteConst(e)
-		s.declare("dur", func() { s.o.expr(e) })
+		s.declare("dur", func() { s.constRHS(e) })
 	case 11:
 		e := s.constStr(2)
 		s.noteConst(e)
-		s.declare("str", func() { s.o.expr(e) })
+		s.declare("str", func() { s.constRHS(e) })
 	case 12:
 		e := s.constBool(3)
 		s.noteConst(e)
-		s.declare("bool", func() { s.o.expr(e) })
+		s.declare("bool", func() { s.constRHS(e) })
 	case 13:
 		s.declare("lbool", func() { s.lambdaKw(); s.o.expr(s.lambdaExpr("bool")) })
 	case 14:
@@ -970,10 +997,14 @@ func (s *sg) chain() {
 	}
 }
 
-func genScript(t *rapid.T) ScriptCase {
+func genScriptWith(r *kit.Rec) func(t *rapid.T) ScriptCase {
+	return func(t *rapid.T) ScriptCase { return genScript(r, t) }
+}
+
+func genScript(r *kit.Rec, t *rapid.T) ScriptCase {
 	noise := rapid.SampledFrom([]int{0, 1, 1, 2}).Draw(t, "noise")
 	comments := rapid.IntRange(0, 3).Draw(t, "comments") != 0
-	s := &sg{t: t, o: newOut(t, noise, comments), vars: map[string][]string{}}
+	s := &sg{r: r, t: t, o: newOut(t, noise, comments), vars: map[string][]string{}}
 	s.edge = rapid.SampledFrom([]string{"stream", "stream", "batch"}).Draw(t, "edge")
 	if rapid.IntRange(0, 9).Draw(t, "dbrp") == 0 {
 		s.o.emit(tk{s: "dbrp", cls: "var"})
